@@ -39,7 +39,7 @@ func renderKey(fm string, shape []string, clause string) string {
 	if strings.HasPrefix(fm, "aft:") {
 		return "afterwards:" + strings.TrimPrefix(fm, "aft:") + ":" + strings.Join(shape, ",")
 	}
-	names := paramNames[strings.Replace(strings.Replace(fm, "arr2:", "arr:", 1), "arrk:", "arr:", 1)]
+	names := paramNames[strings.NewReplacer("arr2:", "arr:", "arrk:", "arr:", "arr3:", "arr:", "str3:", "str:", "strk:", "str:", "argn:", "arr:").Replace(fm)]
 	if strings.HasPrefix(fm, "nest:") {
 		names = []string{"outer", "on", "history"}
 	}
@@ -69,6 +69,14 @@ func renderKey(fm string, shape []string, clause string) string {
 	}
 	if strings.HasPrefix(fm, "str:") {
 		name = "string." + strings.TrimPrefix(fm, "str:")
+	}
+	if strings.HasPrefix(fm, "strk:") {
+		// a text parameter of a string method given a non-string argument
+		name = "string-arg-kinds." + strings.TrimPrefix(fm, "strk:")
+	}
+	if strings.HasPrefix(fm, "argn:") {
+		// an optional parameter of an array method given an explicit null
+		name = "explicit-null." + strings.TrimPrefix(fm, "argn:")
 	}
 	name = strings.TrimSuffix(name, "()")
 	if strings.HasSuffix(fm, "()") {
